@@ -76,7 +76,9 @@ func InitGenesis(ctx sdk.Context, keeper keeper.Keeper, data *types.GenesisState
 
 	// set last ID based on the last pair reward
 	if len(data.Rewards) != 0 {
-		keeper.RewardsID.Set(ctx, data.Rewards[len(data.Rewards)-1].Id)
+		// The sequence holds the NEXT id that "AllocateRewards" hands out. Resume after
+		// the last imported reward so that the next allocation does not overwrite it.
+		keeper.RewardsID.Set(ctx, data.Rewards[len(data.Rewards)-1].Id+1)
 	}
 	keeper.Params.Set(ctx, data.Params)
 
